@@ -186,8 +186,9 @@ func convertMapItemSeen(typ reflect.Type, in interface{}, seen map[_mapConversio
 		}
 		mp := reflect.MakeMap(typ)
 		seen[key] = mp
-		for _, k := range raw.MapKeys() {
-			mp.SetMapIndex(convertMapItemSeen(typ.Key(), k.Interface(), seen), convertMapItemSeen(typ.Elem(), raw.MapIndex(k).Interface(), seen))
+		// through an iterator: a NaN key cannot be looked up again
+		for iter := raw.MapRange(); iter.Next(); {
+			mp.SetMapIndex(convertMapItemSeen(typ.Key(), iter.Key().Interface(), seen), convertMapItemSeen(typ.Elem(), iter.Value().Interface(), seen))
 		}
 		return mp
 	}
